@@ -1,4 +1,4 @@
-//! C12 — points as an affine space over vectors; homogeneous coordinates (Q, Fp, i64).
+//! C12 — points as an affine space over vectors; homogeneous coordinates (Q, Fp, i64; f64 for float regimes).
 
 use super::c03::Sn;
 use vcore::engine::*;
@@ -175,6 +175,84 @@ fn to_homogeneous_int<S: Sn>(d: &mut Draw) -> Outcome {
     pass(if nt { "generic" } else { "degenerate" }, nt)
 }
 
+
+// ---- f64: the same clauses where an exact field cannot look (magnitudes far from 1, k within ulps of 1, long lists)
+fn float3(d: &mut Draw) -> Outcome {
+    const E: f64 = f64::EPSILON;
+    let class = d.int(0, 3);
+    // one magnitude per case, so that p, q, v are comparable and no clause leaves the normal range
+    let m = match class { 0 => 1.0, 1 => d.f64_log(1e-140, 1e-20), 2 => d.f64_log(1e20, 1e140), _ => d.f64_log(1e-3, 1e3) };
+    let mut comp = |d: &mut Draw| m * if d.chance(1, 10) { d.int(-3, 3) as f64 } else { d.f64_in(-4.0, 4.0) };
+    let p = Point3::new(comp(d), comp(d), comp(d));
+    let q = Point3::new(comp(d), comp(d), comp(d));
+    let v = Vector3::new(comp(d), comp(d), comp(d));
+    d.note("p", &p);
+    d.note("q", &q);
+    d.note("v", &v);
+    let near = |a: f64, b: f64, tol: f64| (a - b).abs() <= tol && a.is_finite();
+    let (pa, qa, va) = ([p.x, p.y, p.z], [q.x, q.y, q.z], [v.x, v.y, v.z]);
+    let arr = |p: Point3<f64>| [p.x, p.y, p.z];
+    let arv = |p: Vector3<f64>| [p.x, p.y, p.z];
+    for i in 0..3 {
+        let s = pa[i].abs() + qa[i].abs() + va[i].abs();
+        ensure!(near(arv((p + v) - p)[i], va[i], 4.0 * E * s), "float-add-sub", "(p+v)-p = v within rounding");
+        ensure!(near(arr(p + (q - p))[i], qa[i], 4.0 * E * s), "float-sub-add", "p+(q-p) = q within rounding");
+        ensure!(arr(p - v)[i] == arr(p + (-v))[i], "float-sub-neg", "p - v = p + (-v) exactly (negation is exact)");
+        ensure!(near(arr(p.midpoint(q))[i], pa[i] / 2.0 + qa[i] / 2.0, 4.0 * E * s), "float-midpoint", "midpoint(p,q) = p + (q-p)/2 within rounding");
+    }
+    ensure!(Point3::from_vec(p.to_vec()) == p && Point3::<f64>::origin().to_vec() == Vector3::zero(), "float-to_vec", "to_vec/from_vec");
+    // centroid of short and long lists
+    let n = match d.int(0, 3) { 0 => d.int(1, 4), 1 => d.int(5, 40), 2 => d.int(41, 300), _ => d.int(250, 520) } as usize;
+    let mut pts = Vec::with_capacity(n);
+    // long lists are built from a few drawn points repeated with exact sign/scale changes (keeps the draw vector short)
+    let base: Vec<Point3<f64>> = (0..n.min(6)).map(|_| Point3::new(comp(d), comp(d), comp(d))).collect();
+    for j in 0..n {
+        let b = base[j % base.len()];
+        let f = [1.0, -0.5, 2.0, 0.25, -1.0, 3.0, 0.75][(j / base.len()) % 7];
+        pts.push(Point3::new(b.x * f, b.y * f, b.z * f));
+    }
+    d.note("n", &n);
+    let c = arr(Point3::centroid(&pts));
+    for i in 0..3 {
+        // compensated reference sum
+        let (mut s, mut comp_, mut abs) = (0.0f64, 0.0f64, 0.0f64);
+        for pt in &pts {
+            let x = arr(*pt)[i];
+            let y = x - comp_;
+            let t = s + y;
+            comp_ = (t - s) - y;
+            s = t;
+            abs += x.abs();
+        }
+        let want = s / n as f64;
+        ensure!(near(c[i], want, (n as f64 + 4.0) * E * abs / n as f64 + f64::MIN_POSITIVE), "float-centroid", "centroid = (sum of position vectors)/n within the rounding of an n-term sum");
+    }
+    // homogeneous coordinates: k far from 1 and within a few ulps of 1
+    let k = match d.int(0, 3) {
+        0 => f64::from_bits((1.0f64.to_bits() as i64 + d.int(-8, 8)) as u64),
+        1 => d.f64_slog(1e-150, 1e-3),
+        2 => d.f64_slog(1e3, 1e150),
+        _ => d.f64_slog(0.1, 10.0),
+    };
+    d.note("k", &k);
+    let h = p.to_homogeneous();
+    ensure!(h.x.to_bits() == p.x.to_bits() && h.y.to_bits() == p.y.to_bits() && h.z.to_bits() == p.z.to_bits() && h.w == 1.0, "float-to_homogeneous", "to_homogeneous(p) = (x,y,z,1) exactly");
+    ensure!(arr(Point3::from_homogeneous(h)) == pa, "float-from-to", "from_homogeneous(to_homogeneous(p)) = p exactly (w = 1)");
+    let back = arr(Point3::from_homogeneous(h * k));
+    for i in 0..3 {
+        ensure!(near(back[i], pa[i], 4.0 * E * pa[i].abs()), "float-homogeneous-scale", "from_homogeneous(k * to_homogeneous(p)) = p within 4 eps relative");
+    }
+    let w = k;
+    let g4 = Vector4::new(va[0], va[1], va[2], w);
+    let fh = arr(Point3::from_homogeneous(g4));
+    for i in 0..3 {
+        ensure!(near(fh[i], va[i] / w, 4.0 * E * (va[i] / w).abs()), "float-from_homogeneous", "from_homogeneous(x,y,z,w) = (x,y,z)/w within 4 eps relative");
+    }
+    let kc = if (k - 1.0).abs() < 1e-14 { "k-within-ulps-of-1" } else if k.abs() < 1e-3 || k.abs() > 1e3 { "k-far-from-1" } else { "k-ordinary" };
+    let _ = class;
+    pass(kc, k != 1.0 && n >= 2)
+}
+
 const RULE: &str = "all components non-zero and pairwise distinct within each point/vector, p != q, k not in {0,1}, list length >= 2";
 
 pub fn property() -> Property {
@@ -204,6 +282,7 @@ pub fn property() -> Property {
     add!("homogeneous-Q", "Q", homogeneous::<Q>, 5000, 400_000, 32);
     add!("homogeneous-Fp", "Fp", homogeneous::<Fp>, 5000, 400_000, 32);
     add!("to_homogeneous-i64", "i64", to_homogeneous_int::<i64>, 2000, 100_000, 16);
+    s.push(SubCheck { name: "float3-f64", scalar: "f64", quick: 3000, thorough: 400_000, len: 96, f: float3, required: &[("k-within-ulps-of-1", 100), ("k-far-from-1", 200), ("k-ordinary", 100)], rule: "k != 1 and a list of at least two points", exhaustive: false });
     Property {
         id: "C12",
         title: "Points form an affine space over vectors, with exact homogeneous coordinates",
@@ -212,6 +291,7 @@ pub fn property() -> Property {
             "fields: Q and Fp; the division-free clauses (and midpoint/centroid with the integer's own truncating division) also over i64 in +-1024",
             "homogeneous scale factors and divisors are non-zero by construction",
             "in Fp the list length n of centroid is invertible (n <= 8 < p)",
+            "f64 tier (float3-f64): one magnitude per case from 1e-140..1e140 so that every quantity in the statement stays in the normal range; tolerances are rounding-only (4 eps relative per clause, n eps for an n-term sum); lists up to 520 points; k over 1e+-150 and within 8 ulps of 1",
         ],
         fuzz: false,
     }
